@@ -25,6 +25,22 @@ model (coq/Text.v, coq/Dimacs.v):
             realistic sizes for every registered family (harness/fam_c0[123].py): the
             bytes written must equal print_dimacs of the library object's header,
             variable count and clauses.
+Run first, as a corpus (notes/LARGE_STREAMS.md):
+ huge       outputs of more than 8 and 16 MiB (padded to one byte past the boundary), more
+            than 65536 / 131072 clauses or comment lines, lines of more than 131072
+            characters, through a StringIO, a file name, an open file and the standard
+            output, and `cnfgen dimacs FILE` on a 16 MiB file.  The character-level model
+            is too slow there: the statement itself is checked on the text (read back =
+            written formula; one true problem line; every other line a comment or a clause).
+ thresholds literal values, clause widths, clause / field / name counts and lengths at
+            15..1025, 4096..131073 and 2^31..10^19, writer and reader, exact comparison.
+ shapes     kinds of destination (write-only object, descriptor-named and anonymous files,
+            bytes paths, tiny buffers), file names that merely END in the letters of an
+            extension (to_file(name) and `cnfgen -o name`, format as documented by
+            guess_output_format), names outside ASCII written in-process and by a process
+            in the C locale with UTF-8 mode off.
+ history    one formula object edited through its public API between writes, written to
+            the same file name again and again; the reader called on texts it saw before.
 
 Any exception class other than ValueError, and any accepted text whose formula is
 not the one the (proved sound) model reads, is a failing input for the property."""
